@@ -11,6 +11,9 @@ sequence / picture level signal that enables the tool.
             propagation over every function that stores the signal (branches decided by the assumption are pruned, locals and
             cache fields that become constant are followed, functions all of whose call sites are pruned are skipped) shows that
             every store that can still execute writes the off value
+  C20.TILESYM the derivation of log2_tile_rows in set_tile_info is the derivation of log2_tile_cols with rows<->cols (helpers
+            expanded): each request is limited by the frame-size limit of its own dimension (name-based transposition: the member
+            names are the AV1 specification's, min/max_log2_tile_cols/rows)
   C20.ARG   call-argument signals (global motion): the level argument of every set_gm_controls call depends on the switch, and
             set_gm_controls is the only writer of GmControls.enabled
 """
@@ -22,7 +25,7 @@ PID = 'C20'
 
 META = {
     'technique': 'conditional constant propagation under switch = off (per function, with call-site feasibility and cache-field resolution) + dependence analysis (structured control dependence + value dependence, least fixpoint over type-resolved fields, call-site intersection) from each configuration switch to every store of the enabling signal; who-writes check for call-argument signals',
-    'text': 'Decides, for each user-visible tool switch (loop filter, CDEF, restoration, palette / screen content, intra block copy, global motion, warped motion, OBMC, filter intra, inter-intra compound, super-resolution, tile rows / columns), that no assignment of the sequence- or picture-level signal that turns the tool on is made without consulting the switch - on every path and for every preset, because it is a property of every store. For the on/off tools it also decides the polarity: with the switch set to its disabling value every store that can still execute writes the off value (conditional constant propagation under that assumption). It does not decide that block-level mode decision honours the picture-level signal nor what the entropy coder finally writes.',
+    'text': 'Decides, for each user-visible tool switch (loop filter, CDEF, restoration, palette / screen content, intra block copy, global motion, warped motion, OBMC, filter intra, inter-intra compound, super-resolution, tile rows / columns), that no assignment of the sequence- or picture-level signal that turns the tool on is made without consulting the switch - on every path and for every preset, because it is a property of every store. For the on/off tools it also decides the polarity: with the switch set to its disabling value every store that can still execute writes the off value (conditional constant propagation under that assumption). The requested tile rows / columns are additionally checked to be limited by the limits of their own dimension (row derivation = transposed column derivation). It does not decide that block-level mode decision honours the picture-level signal nor what the entropy coder finally writes.',
     'note': 'CONFIG = EbSvtAv1EncConfiguration (scs->static_config); a signal whose stores are all dependent becomes a source for the signals derived from it',
     'ref': 'DESIGN.md section 5 C20',
 }
@@ -321,6 +324,7 @@ def run(P, rep, tier):
            'GmControls.enabled is written by %s' % writers)
     rep.floor('C20.ARG', 2)
     run_off(P, rep, C, live, stores, csites)
+    run_tilesym(P, rep, C, live, stores)
 
 
 def _local_dep_gm(P, C, f, name, field_dep):
@@ -595,3 +599,75 @@ def run_off(P, rep, C, live, stores, csites):
                        ('with %s = %d (tool disabled by the user) this store is reachable and writes %s instead of %d: %s' %
                         (sw, offv, 'a value the switch does not determine' if v is UNK else v, want, pstr(strip(ev['e'][3]))[:60] if ev['e'][0] == 'a' else ev['e'][1])))
     rep.floor('C20.OFF', 25)
+
+
+def run_tilesym(P, rep, C, live, stores):
+    """C20.TILESYM - the requested tile rows and columns are limited by the frame-size limits of their own dimension: the
+    stores that derive Av1Common.log2_tile_rows are the stores that derive Av1Common.log2_tile_cols with every member renamed
+    rows<->cols (the two configurations are the same algorithm on transposed quantities; helper calls are expanded with their
+    arguments substituted).  A row request clamped by the column limit (or vice versa) silently changes the tiling on pictures
+    whose two limits differ."""
+    import re
+
+    def single_defs(f):
+        d = {}
+        for ev in f.events(('decl', 'st')):
+            e = ev.get('e')
+            if ev['k'] == 'decl':
+                d.setdefault(ev['n'], []).append(e)
+            elif e and e[0] in ('a', 'u'):
+                t = strip(e[2])
+                if t and t[0] == 'v' and t[2] == 'l':
+                    d.setdefault(t[1], []).append(e[3] if e[0] == 'a' and e[1] == '=' else 'step')
+        return {k: v[0] for k, v in d.items() if len(v) == 1 and v[0] is not None and v[0] != 'step'}
+
+    def expand(f, e, env=None, depth=0):
+        e = strip(e)
+        if e is None or depth > 8:
+            return '?'
+        k = e[0]
+        if k == 'l':
+            return str(e[1])
+        if k == 'v':
+            if env and e[1] in env:
+                return env[e[1]]
+            sd = single_defs(f)
+            if e[2] == 'l' and e[1] in sd:
+                return expand(f, sd[e[1]], env, depth + 1)
+            return e[1]
+        if k == 'm':
+            return '.' + e[1].split('.', 1)[1]
+        if k == 'b':
+            return '(%s %s %s)' % (expand(f, e[2], env, depth + 1), e[1], expand(f, e[3], env, depth + 1))
+        if k == 'q':
+            return '(%s ? %s : %s)' % (expand(f, e[1], env, depth + 1), expand(f, e[2], env, depth + 1), expand(f, e[3], env, depth + 1))
+        if k == 'u':
+            return e[1] + expand(f, e[2], env, depth + 1)
+        if k == 'c':
+            n = callee_name(e)
+            tg = [g for g in P.resolve(n, f) if not g.nocfg and g.file == f.file] if n else []
+            if len(tg) == 1 and depth < 3:
+                g = tg[0]
+                rets = [ev for ev in g.events(('ret',)) if ev.get('e') is not None]
+                if len(rets) == 1 and not any(True for _ in g.events(('st',))):
+                    env2 = {pn: expand(f, a, env, depth + 1) for (pn, pt), a in zip(g.params, e[2])}
+                    return expand(g, rets[0]['e'], env2, depth + 1)
+            return '%s(%s)' % (n or '?', ', '.join(expand(f, a, env, depth + 1) for a in e[2]))
+        return pstr(e)
+
+    SW = {'rows': 'cols', 'cols': 'rows', 'row': 'col', 'col': 'row', 'height': 'width', 'width': 'height'}
+
+    def swap(s):
+        return re.sub(r'rows|cols|row|col|height|width', lambda m: SW[m.group()], s)
+    sti = P.fn('set_tile_info')
+    cols = [expand(sti, ev['e'][3]) for ev in sti.events(('st',)) if ev['e'][0] == 'a' and strip(ev['e'][2])[0] == 'm' and strip(ev['e'][2])[1] == 'Av1Common.log2_tile_cols']
+    rows = [expand(sti, ev['e'][3]) for ev in sti.events(('st',)) if ev['e'][0] == 'a' and strip(ev['e'][2])[0] == 'm' and strip(ev['e'][2])[1] == 'Av1Common.log2_tile_rows']
+    # also through helpers that store the member themselves (same file, one level)
+    if not cols or not rows:
+        raise AnalysisBroken('set_tile_info no longer stores Av1Common.log2_tile_cols / log2_tile_rows directly')
+    want = sorted(swap(c) for c in cols)
+    got = sorted(rows)
+    rep.ob('C20.TILESYM', 'set_tile_info/rows-mirror-cols', want == got, sti.loc(),
+           ('row derivation = column derivation with rows<->cols: %s' % got[-1][:120]) if want == got else
+           ('the row derivation is not the transposed column derivation: expected %s, found %s' % (want, got)))
+    rep.floor('C20.TILESYM', 1)
